@@ -1,0 +1,21 @@
+//go:build verif
+
+// Contracts for the deductive checks under /verif (comment-only; compiled only with -tags verif).
+
+package rlp
+
+//@ func readSize
+//@   requires 1 <= slen && slen <= 8
+//@   ensures[C11] err == nil <==> (uint64(slen) <= uint64(len(b)) && rlp_be(arr(b), off(b), uint64(slen)) >= 56 && b[0] != 0)
+//@   ensures[C11] err == nil ==> result0 == rlp_be(arr(b), off(b), uint64(slen))
+//@   ensures[C11] err != nil ==> result0 == 0
+//@   assigns nothing
+//@   nopanic[C11]
+
+//@ func readKind
+//@   ensures[C11] err == nil <==> rlp_ok(arr(buf), off(buf), len(buf))
+//@   ensures[C11] err == nil ==> uint64(k) == rlp_kind(arr(buf), off(buf), len(buf)) && tagsize == rlp_tag(arr(buf), off(buf), len(buf)) && contentsize == rlp_size(arr(buf), off(buf), len(buf))
+//@   ensures[C11] err == nil ==> tagsize <= uint64(len(buf)) && contentsize <= uint64(len(buf)) - tagsize
+//@   ensures[C11] err != nil ==> k == 0 && tagsize == 0 && contentsize == 0
+//@   assigns nothing
+//@   nopanic[C11]
